@@ -101,4 +101,14 @@ theorem C04_decided_from_validators_only (q : Req) (e : Ent) (now : Nat) (r : Re
     r.calls = [.lastModified, .etag] :=
   precondition_outcomes_touch_validators_only q e now r h hs
 
+/-- `C04_pass_through` for ARBITRARY header bytes (grammatical or not, any method): a response
+that is not 304, 400 or 412 is exactly the response to the same request with the four conditional
+headers removed. Once the preconditions have passed they leave no trace — in particular a passing
+If-Match cannot influence what If-Range and Range decide. -/
+theorem C04_passed_preconditions_leave_no_trace (q : Req) (e : Ent) (now : Nat) (r : Resp)
+    (h : serve q e now = .ok r) (hs : r.status ∉ [304, 400, 412]) :
+    serve { q with ifMatch := none, ifNoneMatch := none, ius := .absent, ims := .absent } e now
+      = .ok r :=
+  passed_preconditions_leave_no_trace q e now r h hs
+
 end HS
